@@ -10,7 +10,8 @@ patch and passes without it, and that the package's own tests still pass with th
 Results are appended to seeded/RESULTS.md."""
 import glob, json, os, subprocess, sys, shutil, time
 ROOT = os.path.dirname(os.path.abspath(__file__))
-REPO = "/repo"
+REPO = "/repo"          # replaced by a scratch worktree in main() unless --in-place
+WT = "/tmp/verif-seeded-wt"
 ENV = dict(os.environ, GOFLAGS="-mod=mod", GOPROXY="off", GOSUMDB="off", GOTOOLCHAIN="local")
 
 def sh(cmd, cwd=None, timeout=3600):
@@ -70,6 +71,24 @@ def main():
     ids = [a for a in args if not a.startswith("--")]
     dirs = sorted(glob.glob(os.path.join(ROOT, "seeded", "*", "")))
     rows = []
+    global REPO
+    if "--in-place" not in args:
+        # work on a scratch worktree of /repo's HEAD (other jobs may be using /repo); the checks follow VERIF_REPO
+        sh(["git", "-C", "/repo", "worktree", "remove", "--force", WT])
+        rc, out = sh(["git", "-C", "/repo", "worktree", "add", "--detach", WT, "HEAD"])
+        if rc != 0:
+            print("cannot create worktree:", out); return 2
+        REPO = WT
+        ENV["VERIF_REPO"] = WT
+    try:
+        return run_all(dirs, ids, verify, tier, rows)
+    finally:
+        if REPO == WT:
+            sh(["git", "-C", "/repo", "worktree", "remove", "--force", WT])
+            sh(["git", "-C", "/repo", "worktree", "prune"])
+
+
+def run_all(dirs, ids, verify, tier, rows):
     for d in dirs:
         sid = os.path.basename(os.path.dirname(d))
         if ids and sid not in ids:
@@ -95,7 +114,20 @@ def main():
                 r_with, names = run_demo(demo_src, dst, pkg)
                 demo_res = "builds=%s stable-tests-lost-with-patch=%d demo-with-patch=%s" % (built, len(lost), r_with)
             t0 = time.time()
-            rc_c, o_c = sh([os.path.join(ROOT, "check"), prop, "--tier", tier], cwd=ROOT)
+            # the run rewrites evidence/<prop>.json with what it saw on the *patched* tree: keep the committed one
+            ev = os.path.join(ROOT, "evidence", prop + ".json")
+            ev_keep = open(ev).read() if os.path.exists(ev) else None
+            try:
+                rc_c, o_c = sh([os.path.join(ROOT, "check"), prop, "--tier", tier], cwd=ROOT)
+            finally:
+                if ev_keep is not None:
+                    open(ev, "w").write(ev_keep)
+            replays = [l.split("replay=")[1].split()[0] for l in o_c.split("\n") if l.startswith("VIOLATION") and "replay=" in l]
+            for rp in replays[:1]:
+                try:
+                    shutil.copyfile(rp, os.path.join(d, "replay-%s.json" % tier))
+                except OSError:
+                    pass
             viol = [l for l in o_c.split("\n") if l.startswith("VIOLATION")]
             verdict = "MISSED"
             if viol:
